@@ -229,9 +229,12 @@ int asm_create_bin_file(assemblyline_t al, const char *file_name) {
 
   FAIL_IF_MSG(write_ptr == NULL, "failed to create binary file")
 
-  fwrite(buffer, sizeof(uint8_t), len, write_ptr);
-
-  fclose(write_ptr);
+  size_t to_write = len > 0 ? (size_t)len : 0;
+  size_t written = fwrite(buffer, sizeof(uint8_t), to_write, write_ptr);
+  // buffered data may only reach the file (and fail) when it is closed
+  int close_failed = fclose(write_ptr);
+  FAIL_IF_MSG(written != to_write || close_failed,
+              "failed to write binary file")
 
   return EXIT_SUCCESS;
 }
